@@ -4,6 +4,7 @@ use serde_json::Value;
 
 pub mod c01;
 pub mod c02;
+pub mod c03;
 pub mod c04;
 pub mod c07;
 pub mod c10;
@@ -16,6 +17,7 @@ pub fn run(ctx: &Ctx, sh: &mut Shard) {
     match ctx.prop.as_str() {
         "C01" => c01::run(ctx, sh),
         "C02" => c02::run(ctx, sh),
+        "C03" => c03::run(ctx, sh),
         "C04" => c04::run(ctx, sh),
         "C07" => c07::run(ctx, sh),
         "C10" => c10::run(ctx, sh),
@@ -33,6 +35,7 @@ pub fn replay(v: &Value, sh: &mut Shard) {
     match v["property"].as_str().unwrap_or("") {
         "C01" => c01::replay(v, sh),
         "C02" => c02::replay(v, sh),
+        "C03" => c03::replay(v, sh),
         "C04" => c04::replay(v, sh),
         "C07" => c07::replay(v, sh),
         "C10" => c10::replay(v, sh),
